@@ -61,6 +61,10 @@ def _kinds() -> List[dict]:
     add("guid", GUID_, lambda s, n: ast.GUID("6c0e37e3-e856-45ee-bd58-484b11882c67"), sentinel="6c0e37e3")
     add("geography", GEO, lambda s, n: ast.Geography("POINT(1 2)"))
     add("field", UNK, lambda s, n: fld("name"))
+    add("bool-field", BOOL, lambda s, n: fld("flag"), root="item")
+    add("not-bool-field", BOOL, lambda s, n: ast.UnaryOp(ast.Not(), fld("flag")), root="item")
+    add("ne-of-negation", BOOL, lambda s, n: ast.Compare(ast.NotEq(), ast.UnaryOp(ast.Not(), ast.Boolean("true")), fld("flag")), root="item")
+    add("ne-with-negation", BOOL, lambda s, n: ast.Compare(ast.NotEq(), ast.Boolean("false"), ast.UnaryOp(ast.Not(), fld("flag"))), root="item")
     add("neg-field", NUM, lambda s, n: ast.UnaryOp(ast.USub(), fld("n")))
     add("neg-literal", NUM, lambda s, n: ast.UnaryOp(ast.USub(), ast.Integer(str(n))))
     add("neg-expr", NUM, lambda s, n: ast.UnaryOp(ast.USub(), ast.BinOp(ast.Add(), fld("n"), ast.Integer(str(n)))))
@@ -79,6 +83,8 @@ def _kinds() -> List[dict]:
     add("all-lambda", BOOL, lambda s, n: ast.CollectionLambda(fld("children"), ast.All(), lam(s, n)), tags=("lambda",))
     add("any-string-lambda", BOOL, lambda s, n: ast.CollectionLambda(
         fld("tags"), ast.Any(), ast.Lambda(I("t"), ast.Compare(ast.Eq(), ast.Attribute(I("t"), "t"), ast.String(s)))), tags=("lambda",))
+    add("lambda-outer-column", BOOL, lambda s, n: ast.CollectionLambda(fld("children"), ast.Any(), ast.Lambda(
+        I("c"), ast.Compare(ast.Gt(), ast.Attribute(I("c"), "k"), fld("n")))), tags=("lambda", "outer-column"))
     add("path-lambda", BOOL, lambda s, n: ast.CollectionLambda(ast.Attribute(fld("parent"), "children"), ast.Any(), lam(s, n)),
         root="child", tags=("lambda", "path"))
     add("custom-call", UNK, lambda s, n: ast.Call(I("fn", ("ns",)), [fld("name"), ast.String(s)]), tags=("custom",))
@@ -146,11 +152,11 @@ def _positions() -> List[dict]:
 
 
 def _f(root: str) -> str:
-    return "name" if root == "parent" else "label"
+    return "label" if root == "child" else "name"
 
 
 def _n(root: str) -> str:
-    return "n" if root == "parent" else "k"
+    return "k" if root == "child" else "n"
 
 
 KINDS: List[dict] = []
@@ -180,16 +186,16 @@ def _setup_backends() -> List[dict]:
     B.append({"name": "roundtrip", "run": (lambda t, r: AstToODataVisitor().visit(t)), "ok": (lambda o: isinstance(o, str)), "text": True})
 
     def run_dj(t, r):
-        v = AstToDjangoQVisitor(dj.Parent if r == "parent" else dj.Child)
+        v = AstToDjangoQVisitor({"parent": dj.Parent, "child": dj.Child, "item": dj.Item}[r])
         return (v.visit(t), v.queryset_annotations)
     B.append({"name": "django", "run": run_dj, "ok": (lambda o: isinstance(o[0], (Q, Combinable)) or hasattr(o[0], "resolve_expression")), "text": False})
 
     def run_sa(t, r):
-        return AstToSqlAlchemyOrmVisitor(samodels.Parent if r == "parent" else samodels.Child).visit(t)
-    B.append({"name": "sa_orm", "run": run_sa, "ok": (lambda o: isinstance(o, ClauseElement)), "text": False})
+        return AstToSqlAlchemyOrmVisitor({"parent": samodels.Parent, "child": samodels.Child, "item": samodels.Item}[r]).visit(t)
+    B.append({"name": "sa_orm", "run": run_sa, "ok": (lambda o: isinstance(o, ClauseElement) or hasattr(o, "__clause_element__")), "text": False})
 
     def run_core(t, r):
-        return AstToSqlAlchemyCoreVisitor((samodels.Parent if r == "parent" else samodels.Child).__table__).visit(t)
+        return AstToSqlAlchemyCoreVisitor({"parent": samodels.Parent, "child": samodels.Child, "item": samodels.Item}[r].__table__).visit(t)
     B.append({"name": "sa_core", "run": run_core, "ok": (lambda o: isinstance(o, ClauseElement)), "text": False})
     return B
 
@@ -485,13 +491,46 @@ def main() -> int:
     run.extra["concretely_enumerated_not_solver_decided"] = conc
     run.notes.append(f"{conc} (sa_orm, lambda kind, position) combinations are enumerated concretely only: SQLAlchemy's "
                      "relationship.any() is not executable under CrossHair")
+    # known findings: an entry lists (backend, kind, position) combinations; each is honoured only if it still fails
+    # concretely, and is then excluded from the symbolic picks - every other combination is still decided
+    bidx = {b["name"]: i for i, b in enumerate(BACKENDS)}
+    kidx = {k["name"]: i for i, k in enumerate(KINDS)}
+    pidx = {p["name"]: i for i, p in enumerate(POS)}
+    live: Dict[tuple, str] = {}
+    for ent in run.known:
+        still = []
+        for combo in ent.get("witness", {}).get("combos", []):
+            try:
+                key = (bidx[combo[0]], kidx[combo[1]], pidx[combo[2]])
+            except KeyError:
+                continue
+            if crosshair_unfit(key[0], key[1]):
+                continue
+            if not _verdict(key[0], key[1], key[2], "zqx", 7013):
+                live[key] = ent["id"]
+                still.append(combo)
+        if still:
+            o = outcome(bidx[still[0][0]], kidx[still[0][1]], pidx[still[0][2]], "zqx", 7013)
+            run.known_finding(ent, f"{len(still)} listed combination(s) still fail, e.g. backend={still[0][0]} kind={still[0][1]} "
+                                   f"position={still[0][2]}: {o[0]} {str(o[1])[:100]}", name="known:" + ent["id"], family="known")
+        elif ent.get("witness", {}).get("combos"):
+            run.notes.append(f"known finding {ent['id']}: no listed combination fails any more - nothing excluded")
     items: List[Item] = []
     chunk = 6
     for bi, b in enumerate(BACKENDS):
         for lo in range(0, len(KINDS), chunk):
             hi = min(len(KINDS), lo + chunk)
+            excl = "".join(f" and not (ki == {k - lo} and pi == {p_})" for (b_, k, p_) in live if b_ == bi and lo <= k < hi)
+            # quick: every kind on every backend at 4 of the 13 positions (rotating with chunk, backend and seed);
+            # thorough: the full kind x position product
+            if quick:
+                r = (lo // chunk + bi + run.seed) % len(POS)
+                sub = tuple(sorted({(r + j * 3) % len(POS) for j in range(4)} | {0}))
+                prange = f"pi in {sub!r}"
+            else:
+                prange = f"0 <= pi < {len(POS)}"
             items.append(Item(f"k_{b['name']}_{lo}", "ki: int, pi: int",
-                              f"0 <= ki < {hi - lo} and 0 <= pi < {len(POS)}",
+                              f"0 <= ki < {hi - lo} and {prange}" + excl,
                               f"check_picks({bi}, {lo}, ki, pi)",
                               describe={"backend": b["name"], "kinds": [k["name"] for k in KINDS[lo:hi]]}, family="outcome:" + b["name"],
                               isolate=not b["text"]))
@@ -502,8 +541,14 @@ def main() -> int:
         for bi in text_b:
             if quick and BACKENDS[bi]["name"] in ("sql", "sqlite", "athena") and (j + run.seed) % 3 != ("sql", "sqlite", "athena").index(BACKENDS[bi]["name"]):
                 continue          # quick: each string kind on one of the three dialects (rotating), all in thorough
+            if quick:
+                r = (j + bi + run.seed) % len(POS)
+                sub = tuple(sorted({(r + jj * 3) % len(POS) for jj in range(4)}))
+                prange = f"pi in {sub!r}"
+            else:
+                prange = f"0 <= pi < {len(POS)}"
             items.append(Item(f"s_{BACKENDS[bi]['name']}_{ki}", "pi: int, s: str",
-                              f"0 <= pi < {len(POS)} and len(s) <= {1 if quick else 2}",
+                              f"{prange} and len(s) <= {1 if quick else 2}",
                               f"check_content({bi}, {ki}, pi, s)",
                               describe={"backend": BACKENDS[bi]["name"], "kind": KINDS[ki]["name"]}, family="content:" + BACKENDS[bi]["name"]))
     nn = len(NAMES)
